@@ -15,6 +15,7 @@ pub mod c10;
 pub mod c13;
 pub mod c14;
 pub mod c15;
+pub mod c17;
 pub mod c18;
 pub mod env;
 pub mod node;
@@ -401,6 +402,7 @@ pub fn main() {
         "C13" => c13::run(&opts),
         "C14" => c14::run(&opts),
         "C15" => c15::run(&opts),
+        "C17" => c17::run(&opts),
         "C18" => c18::run(&opts),
         "SIMTEST" => simtest::run(&opts),
         other => {
